@@ -4,6 +4,7 @@
   Core Lean only (built as a `lean_exe`).
 -/
 import Orbiter.Step
+import Orbiter.Encode
 open Orbiter
 
 def hxS (s : String) : String := hexOfString s
@@ -351,6 +352,51 @@ def pureOp (f : List String) : String :=
         | .err t => (if t.startsWith "parse:" then "err:p" else "err:v") ++ " #" ++ t
         | .panic _ => "panic")
      | none => "bad-op")
+  | "marshal" :: spec :: n :: rest =>
+    -- constructor-built payload -> MarshalJSON bytes
+    let orb := Gen.moduleAddress
+    let fwd : Option (Res Forwarding) :=
+      match spec.splitOn ":" with
+      | ["cctp", d, m, c, pt] =>
+        (match parseNat d, unhxB m, unhxB c, unhxB pt with
+         | some d, some m, some c, some pt => if d < 2 ^ 32 then some (newAttrsForwarding hrp orb PROTOCOL_CCTP (.cctp d m c) pt) else some (.err "spec")
+         | _, _, _, _ => none)
+      | ["hyp", t, d, r, h, hm, g, fd, fa, pt] =>
+        (match unhxB t, parseNat d, unhxB r, unhxB h, unhxS hm, unhxS fd, unhxB pt with
+         | some t, some d, some r, some h, some hm, some fd, some pt =>
+           (match newIntFromString g, newIntFromString fa with
+            | some g, some fa => if d < 2 ^ 32 then some (newAttrsForwarding hrp orb PROTOCOL_HYPERLANE (.hyp t d r h hm g fd fa) pt) else some (.err "spec")
+            | _, _ => some (.err "spec"))
+         | _, _, _, _, _, _, _ => none)
+      | ["int", r] => (match unhxS r with | some r => some (newAttrsForwarding hrp orb PROTOCOL_INTERNAL (.internal r) []) | none => none)
+      | _ => none
+    let rec acts (k : Nat) (rest : List String) : Option (Res (List Action)) :=
+      match k, rest with
+      | 0, _ => some (.ok [])
+      | k + 1, "fee" :: m :: more =>
+        (match parseNat m with
+         | none => none
+         | some m =>
+           match buildInfos m more with
+           | none => none
+           | some (infos, rest') =>
+             if infos.any Option.isNone then some (.err "act") else
+             let built := Res.allM (fun (f : FeeInfo) => (newFeeInfo hrp f.recipient f.feeType).map fun _ => ()) (infos.filterMap id)
+             match acts k rest' with
+             | none => none
+             | some tl => some (built >>= fun _ => newFeeAction hrp (infos.filterMap id) >>= fun a => tl.map fun l => a :: l))
+      | _, _ => none
+    (match fwd, parseNat n with
+     | some (.ok f), some k =>
+       (match acts k rest with
+        | none => "bad-op"
+        | some (.ok al) =>
+          (match newPayload f al with
+           | .ok p => "ok:" ++ hxB (marshalPayload false p)
+           | _ => "err:payload")
+        | some _ => "err:act")
+     | some _, some _ => "err:fwd"
+     | _, _ => "bad-op")
   | ["bech32", s] => (match unhxS s with | some s => (match accAddressFromBech32 hrp s with | some b => "ok:" ++ hxB b | none => "err") | none => "bad-op")
   | ["ics20", d] =>
     (match unhxB d with
